@@ -13,9 +13,12 @@ Addrs(t) == {a \in NetAddrs(t.net) : ~Excluded(a, t.exclude)}
 Denote(t) == IF t.ranges = <<>> THEN {<<a, 0, 1>> : a \in Addrs(t)}
              ELSE {<<a, p, PortCount(t.ranges, p)>> : a \in Addrs(t), p \in Ports(t.ranges)}
 Observed(h) == {<<h[i].ip, h[i].port, h[i].n>> : i \in 1..Len(h)}
-RunOK(r) == /\ Cardinality(Observed(r.hist)) = Len(r.hist)       \* one histogram entry per key
-            /\ Observed(r.hist) = Denote(r.target)
-            /\ r.errors = 0
+\* an exclusion file that cannot be read completely (over-long line) must stop the command with an error: nothing is generated
+RunOK(r) == IF r.refused THEN (r.longLine /\ r.hist = <<>>)
+            ELSE /\ ~r.longLine
+                 /\ Cardinality(Observed(r.hist)) = Len(r.hist)       \* one histogram entry per key
+                 /\ Observed(r.hist) = Denote(r.target)
+                 /\ r.errors = 0
 VARIABLE l
 Init == l = 1
 Next == l <= Len(Runs) /\ RunOK(Runs[l]) /\ l' = l + 1
